@@ -193,6 +193,46 @@ fn check_budget_history(acc: &mut Acc, rank: u64, seg_idx: &[usize], src: Src) {
     }
 }
 
+/// The nesting budget is state that outlives a datum: after every datum that was read
+/// successfully it must be back at its initial value, otherwise a long enough stream (or one datum
+/// with enough siblings) ends in a spurious "recursion limit exceeded" (seeds C01-c, C04-c: one
+/// unit leaked per empty vector / per vector). Needs the state hook.
+#[cfg(feature = "hooks")]
+fn check_budget_restored(acc: &mut Acc, rank: u64, input: &[u8], po: &PO) {
+    fn go<'de, R: lexpr::parse::Read<'de>>(mut p: Parser<R>, datum: bool) -> Option<(usize, u8, u8)> {
+        let d0 = p.verif_state().1;
+        for i in 0..64 {
+            let ok = if datum { matches!(guard(std::panic::AssertUnwindSafe(|| p.next_datum().map(|x| x.is_some()))), Ok(Ok(true))) } else { matches!(guard(std::panic::AssertUnwindSafe(|| p.next_value().map(|x| x.is_some()))), Ok(Ok(true))) };
+            if !ok {
+                return None; // error, end of input or panic: the budget after an error is not constrained here
+            }
+            let d = p.verif_state().1;
+            if d != d0 {
+                return Some((i, d0, d));
+            }
+        }
+        None
+    }
+    acc.evals += 1;
+    let o = po.to_lexpr();
+    let runs: [(&str, Option<(usize, u8, u8)>); 4] = [
+        ("slice/value", go(Parser::from_slice_custom(input, o), false)),
+        ("slice/datum", go(Parser::from_slice_custom(input, o), true)),
+        ("reader/value", go(Parser::from_reader_custom(input, o), false)),
+        ("reader/datum", go(Parser::from_reader_custom(input, o), true)),
+    ];
+    for (how, r) in runs {
+        if let Some((i, d0, d)) = r {
+            let (h, pi) = (hex(input), po.index());
+            acc.violation("depth-budget-restored", "budget-not-restored", &format!("budget-not-restored:{}", how), rank, format!("api={} input={:?} opts=[{}]", how, trunc(&show_bytes(input), 80), po.describe()), format!("after datum #{} was read successfully the remaining nesting budget is {} instead of {}", i, d, d0), || json!({"budget_input_hex": h, "po": pi}));
+        }
+    }
+}
+#[cfg(not(feature = "hooks"))]
+fn check_budget_restored(acc: &mut Acc, _rank: u64, _input: &[u8], _po: &PO) {
+    acc.count("skipped-no-hooks");
+}
+
 /// 300 consecutive over-deep errors on one parser, then a 100-deep datum must still be accepted.
 fn check_repeated_overdeep(acc: &mut Acc, api: Style) {
     let unit = format!("{} ", "(".repeat(130));
@@ -340,6 +380,10 @@ pub fn replay(sub: &str, case: &J, acc: &mut Acc) {
             _ => Src::Slice,
         };
         check_budget_history(acc, 0, &idx, src);
+        return;
+    }
+    if let Some(h) = case["budget_input_hex"].as_str() {
+        check_budget_restored(acc, 0, &unhex(h), &PO::from_index(case["po"].as_u64().unwrap_or(0)));
         return;
     }
     if case.get("repeated_overdeep").is_some() {
@@ -544,6 +588,37 @@ pub fn run(ctx: &Ctx) -> Report {
         check_repeated_overdeep(&mut extra, Style::NextValue);
         check_repeated_overdeep(&mut extra, Style::NextDatum);
         accs.push(extra);
+        rep.absorb(sub, accs);
+    }
+    if ctx.want("depth-budget-restored") {
+        let k = if thorough { 4 } else { 3 };
+        let n = count_upto(SIGMA.len() as u64, k);
+        let corpus = corpus_all(thorough);
+        let two = [PO::default_(), PO::elisp(), PO::all_on()];
+        let total = (n + corpus.len() as u64) * 3;
+        let sub = Sub::new(
+            "depth-budget-restored",
+            "state invariant on the real parser (hook verif_state): for every string of length <= k over the token alphabet and every corpus text, under {default, elisp, everything-on} options, slice and reader source, value and datum API: after every successfully read datum the remaining nesting budget equals its initial value; non-trivial = at least one datum read",
+            &format!("k = {}: ({} strings + {} corpus texts) x 3 option sets x 4 parsers", k, n, corpus.len()),
+        );
+        let accs = par_ranks(total, |rank, acc| {
+            let po = &two[(rank % 3) as usize];
+            let r = rank / 3;
+            let mut buf = Vec::new();
+            let mut idx = Vec::new();
+            let text: &[u8] = if r < n {
+                unrank_string(r, SIGMA, &mut buf, &mut idx);
+                &buf
+            } else {
+                &corpus[(r - n) as usize]
+            };
+            if matches!(guard(|| lexpr::from_slice_custom(text, po.to_lexpr()).is_ok()), Ok(true)) {
+                acc.nontrivial += 1;
+            }
+            acc.sample(rank, || format!("{:?} [{}]", trunc(&show_bytes(text), 40), po.describe()));
+            acc.outcome(&(text.len().min(6), text.first().copied()));
+            check_budget_restored(acc, rank, text, po);
+        });
         rep.absorb(sub, accs);
     }
     if ctx.want("pathological") {
